@@ -4,7 +4,7 @@ set -u
 d=$(readlink -f "$1"); prop=$2
 if [ -n "$(git -C /repo status --porcelain)" ]; then echo "REFUSING: /repo working tree not clean"; exit 2; fi
 git -C /repo apply "$d/patch.diff" || { echo "PATCH DOES NOT APPLY"; exit 2; }
-cd /verif && ./bin/dvc check $prop > /tmp/try_seed.out 2>&1; rc=$?
+cd /verif && DVC_EVIDENCE_DIR=/verif/work/trial-evidence ./bin/dvc check $prop > /tmp/try_seed.out 2>&1; rc=$?
 git -C /repo checkout -- . ; git -C /repo clean -fdq
 grep -c "^VIOLATION" /tmp/try_seed.out | sed "s/^/$(basename $d) on $prop: exit=$rc violations=/"
 grep "^VIOLATION" /tmp/try_seed.out | sed 's/.*obligation=//' | head -8
